@@ -98,6 +98,10 @@ CLAIMS["C06"] = ("exploration",
     "stateful PBT over clocked histories of adds, priority changes (immediate, lazy, extreme values), completions, queued successors and pop mode; every frame's top-to-bottom order is judged by a validity predicate against the effective priorities of a reference frame model",
     "exact only for manual refresh with one client and n<=q (the render clock is owned by the harness); ties and the frame after a lazy change accept any order",
     "model-based stateful property testing (rapid) with an order-validity oracle")
+CLAIMS["C10"] = ("exploration",
+    "generated concurrent histories (1-8 clients on 1-3 shared bars, all mutators and getters, render cycles and bar shutdown anywhere, holds around the bar goroutine's exit): (1) the recorded invoke/return history of every bar is checked for linearizability against the sequential bar model by porcupine, (2) at quiescence Current equals the capped sum of the increments, (3) the same scenarios run in -race worker processes and a reported data race whose two access sites are library code is a violation (the journalled scenario is the replay file)",
+    "porcupine v1.3.0 decides linearizability (capped histories, timeout -> inconclusive); operations after a bar's terminal event may be applied or dropped; the race detector only sees executed accesses",
+    "property-based testing (rapid) of generated concurrent histories + linearizability checking + dynamic race detection")
 CLAIMS["C11"] = ("exploration",
     "stateful PBT over per-bar histories that continue after the terminal event (further updates, aborts, SetTotal, trigger enabling, getters, Bar.Wait, render cycles, cancel/Shutdown) in four refresh regimes; history invariants over every (Completed, Aborted) pair read by the client and shown by the row tags, agreement with the program's first terminal event, exactly-one after Wait, cancel means aborted",
     "observations ordered per observer; updates after completion are non-decreasing as the statement requires; hangs are left to C01",
